@@ -28,7 +28,7 @@ static const char* kArenaName[A_COUNT] = {"text", "obj", "heap"};
 static std::unordered_map<uint32_t, uint32_t> g_blk_at;               // heap offset -> block index
 static std::map<uint32_t, std::vector<uint32_t>> g_free_by_size;      // lifo reuse
 
-struct Seg { uintptr_t lo, hi; bool w; };
+struct Seg { uintptr_t lo, hi; bool w; bool tls = false; };
 static std::vector<Seg> g_image;
 static uintptr_t g_errno_addr = 0;
 static uintptr_t g_main_stack_lo = 0, g_main_stack_hi = 0;
@@ -129,7 +129,7 @@ std::string addr_name(const void* p) {
         return buf;
     }
     if (g.cur && a >= g.cur->stack_lo && a < g.cur->stack_hi) return "stack";
-    for (auto& s : g_image) if (a >= s.lo && a < s.hi) return s.w ? "image-data" : "image-ro";
+    for (auto& s : g_image) if (a >= s.lo && a < s.hi) return s.tls ? "thread-local" : s.w ? "image-data" : "image-ro";
     return "unknown-memory";
 }
 
@@ -141,6 +141,15 @@ static int phdr_cb(struct dl_phdr_info* info, size_t, void*) {
         Seg s; s.lo = info->dlpi_addr + ph.p_vaddr; s.hi = s.lo + ph.p_memsz; s.w = (ph.p_flags & PF_W) != 0;
         g_image.push_back(s);
     }
+    // the module's thread-local block of this thread (all simulated tasks run on one thread): libc keeps the <ctype.h> table
+    // pointers and errno there, so a library that uses isdigit()/tolower() loads from it; a store is static state all the same
+    if (info->dlpi_tls_data)
+        for (int i = 0; i < info->dlpi_phnum; i++) {
+            const ElfW(Phdr)& ph = info->dlpi_phdr[i];
+            if (ph.p_type != PT_TLS || !ph.p_memsz) continue;
+            Seg s; s.lo = (uintptr_t)info->dlpi_tls_data; s.hi = s.lo + ph.p_memsz; s.w = true; s.tls = true;
+            g_image.push_back(s);
+        }
     return 0;
 }
 void image_init() {
@@ -465,7 +474,7 @@ void check_access(uintptr_t a, size_t n, bool store) {
         if (lo < g_image.size() && a >= g_image[lo].lo && a + n <= g_image[lo].hi) {
             if (!store) return;
             c->in_call = false;
-            violate(V_STORE_STATIC, "store of " + std::to_string(n) + " byte(s) into static/global data of the program image", true);
+            violate(V_STORE_STATIC, "store of " + std::to_string(n) + (g_image[lo].tls ? " byte(s) into thread-local static data" : " byte(s) into static/global data of the program image"), true);
             c->in_call = true;
             return;
         }
